@@ -162,8 +162,7 @@ func (h *Handler) handlePropfind(w http.ResponseWriter, r *http.Request) error {
 			return err
 		}
 	} else {
-		var b [1]byte
-		if _, err := r.Body.Read(b[:]); err != io.EOF {
+		if !IsRequestBodyEmpty(r) {
 			return HTTPErrorf(http.StatusBadRequest, "webdav: unsupported request body")
 		}
 		propfind.AllProp = &struct{}{}
